@@ -41,8 +41,9 @@ type c15Op struct {
 }
 
 type c15Prog struct {
-	read int // -1 all, 0 none, k bytes
-	ops  []c15Op
+	read      int // -1 all, 0 none, k bytes
+	closeBody bool // the handler closes the request body itself when it is done with it
+	ops       []c15Op
 }
 
 func (r c15Req) raw() []byte {
@@ -126,7 +127,7 @@ func genC15Req(rng *rand.Rand, i int) c15Req {
 }
 
 func genC15Prog(rng *rand.Rand, bodyLen int, minor int) c15Prog {
-	p := c15Prog{read: []int{-1, -1, 0, 0, 1}[rng.Intn(5)]}
+	p := c15Prog{read: []int{-1, -1, 0, 0, 1}[rng.Intn(5)], closeBody: rng.Intn(4) == 0}
 	if p.read == 1 {
 		p.read = 1 + rng.Intn(bodyLen+1)
 	}
@@ -186,6 +187,9 @@ func (p c15Prog) String() string {
 	if len(parts) == 0 {
 		parts = []string{"-"}
 	}
+	if p.closeBody {
+		parts = append([]string{"c"}, parts...)
+	}
 	return fmt.Sprintf("read=%d %s", p.read, strings.Join(parts, ","))
 }
 
@@ -237,6 +241,9 @@ func runC15(seed int64, count int) {
 				buf := make([]byte, p.read)
 				n, _ := io.ReadFull(r.Body, buf)
 				got = buf[:n]
+			}
+			if p.closeBody {
+				r.Body.Close()
 			}
 			cl := "0"
 			if r.Close {
